@@ -243,6 +243,12 @@ class Explorer(object):
                 self.stats["infeasible"] += 1
                 for alt in it.alternatives:
                     stack.append(alt)
+                if it.vcs:
+                    # obligations recorded before the path condition became unsatisfiable (typically a cut: goal recorded, then
+                    # assumed; a goal that is false on the whole path empties it) are still obligations of the feasible prefix
+                    results.append(PathResult(("stop", "path condition unsatisfiable after a checked assumption"),
+                                              list(it.pc), list(it.vcs), list(it.trace), dict(it.info)))
+                    self.stats["paths"] += 1
                 continue
             for alt in it.alternatives:
                 stack.append(alt)
